@@ -8,10 +8,12 @@ from clastic.errors import (HTTPException, ErrorHandler, ContextualErrorHandler,
                             ERROR_CODE_MAP, ImATeapot)
 from werkzeug.wrappers import Response, Request, BaseResponse
 from werkzeug.test import EnvironBuilder
-from harness.util import R, concrete_repr
+from harness.util import R, concrete_repr, untraced
 
 POSITIONS = ['req_before', 'req_after', 'epmw', 'endpoint', 'rnmw', 'render', 'endpoint_norender']
-CODES = sorted(c for c in ERROR_CODE_MAP if c)
+_ALLC = sorted(c for c in ERROR_CODE_MAP if c)
+_FIRST = [400, 404, 405, 500, 503, 418, 502, 401, 403, 501, 504, 429]
+CODES = _FIRST + [c for c in _ALLC if c not in _FIRST]       # representative codes first (quick tier uses a prefix)
 MSGS = ['boom', 'é\x00<b>&"', 'x' * 3000, '']
 BUILTIN_EXCS = [ValueError, KeyError, ZeroDivisionError, TypeError, AttributeError, RuntimeError, OSError,
                 UnicodeError, LookupError, AssertionError, NotImplementedError, StopIteration]
@@ -150,13 +152,17 @@ def _mk_app(i, cheap=False):
     eh = _handler(i)
     if cheap:
         eh.exc_info_type = _CheapEI
-    return Application([Route('/x', ep, rn), Route('/nr', ep_norender)], middlewares=[PlanMW()], error_handler=eh)
+    from clastic.route import GET
+    return Application([Route('/x', ep, rn), Route('/nr', ep_norender), GET('/getonly', ep_norender)], middlewares=[PlanMW()], error_handler=eh)
 
 
 APPS = [_mk_app(i, True) for i in range(5)]
 APPS_REAL = [_mk_app(i) for i in range(5)]
-REQ_X = [Request(EnvironBuilder(path='/x', headers={'Accept': a}).get_environ()) for a in ('text/plain', 'text/html')]
-REQ_NR = [Request(EnvironBuilder(path='/nr', headers={'Accept': a}).get_environ()) for a in ('text/plain', 'text/html')]
+ACCEPTS = ('text/plain', 'text/html', 'application/json')
+REQ_X = [Request(EnvironBuilder(path='/x', headers={'Accept': a}).get_environ()) for a in ACCEPTS]
+REQ_NR = [Request(EnvironBuilder(path='/nr', headers={'Accept': a}).get_environ()) for a in ACCEPTS]
+REQ_UNKNOWN = Request(EnvironBuilder(path='/no/such/route', headers={'Accept': 'text/plain'}).get_environ())
+REQ_WRONG_METHOD = Request(EnvironBuilder(path='/getonly', method='POST', headers={'Accept': 'text/plain'}).get_environ())
 
 
 def _snapshot(app):
@@ -182,11 +188,13 @@ def expected(pos_i, kind, k, handler_i):
     return ('reraise', TypeError) if reraise else ('status', 500)
 
 
-def run_plan(pos_i, kind, k, msg_i, handler_i, real_ei=False):
+def run_plan(pos_i, kind, k, msg_i, handler_i, real_ei=False, acc=None):
     app = (APPS_REAL if real_ei else APPS)[handler_i]
     snap = _snapshot(app)
     pos = POSITIONS[pos_i]
-    req = (REQ_NR if pos == 'endpoint_norender' else REQ_X)[1 if real_ei else 0]
+    if acc is None:
+        acc = 1 if (real_ei or kind in (1, 2)) else 0
+    req = (REQ_NR if pos == 'endpoint_norender' else REQ_X)[acc]
     PLAN.update(pos=pos, kind=kind, k=k, msg=MSGS[msg_i], obj=None)
     out = exc = None
     try:
@@ -198,12 +206,58 @@ def run_plan(pos_i, kind, k, msg_i, handler_i, real_ei=False):
     # the application serves the next request unchanged
     again = app.dispatch(req)
     healthy = isinstance(again, BaseResponse) and again.status_code == 200 and again.get_data() == b'ok' and _snapshot(app) == snap
+    if healthy and handler_i != 4:
+        # later requests that end on the catch-all route get their OWN 404 / 405, not a leftover of the failed one
+        nf = app.dispatch(REQ_UNKNOWN)
+        wm = app.dispatch(REQ_WRONG_METHOD)
+        healthy = (isinstance(nf, BaseResponse) and nf.status_code == 404 and nf is not PLAN['obj'] and
+                   isinstance(wm, BaseResponse) and wm.status_code == 405 and wm is not PLAN['obj'])
     return out, exc, healthy
+
+
+def ob_k0(pos_i: int, handler_i: int, acc: int, msg_i: int, k: int) -> bool:
+    """kind 0: a built-in exception raised at the selected position (real boltons ExceptionInfo, native run)"""
+    with untraced():
+        return _complete(pos_i, 0, k, msg_i, handler_i, True, acc)
+
+
+def ob_k12(pos_i: int, handler_i: int, kk: int, acc: int, k: int) -> bool:
+    """kinds 1/2: an exported HTTPException class raised / returned"""
+    with untraced():
+        return _complete(pos_i, 1 + kk, k, 0, handler_i, True, acc)
+
+
+def ob_k345(pos_i: int, handler_i: int, kk: int, acc: int, k: int) -> bool:
+    """kinds 3/4/5: non-Response value, non-breaking error, early Response"""
+    with untraced():
+        return _complete(pos_i, 3 + kk, k, 0, handler_i, True, acc)
+
+
+def tw_k345(pos_i: int, handler_i: int, kk: int, acc: int, k: int) -> bool:
+    with untraced():
+        out, exc, healthy = run_plan(pos_i, 3 + kk, k, 0, handler_i, True, acc)
+        return healthy and exc is None and isinstance(out, InternalServerError) and kk == 0
+
+
+def confirm_k0(pos_i, handler_i, acc, msg_i, k):
+    return confirm_complete(pos_i, 0, k, msg_i, handler_i, acc)
+
+
+def confirm_k12(pos_i, handler_i, kk, acc, k):
+    return confirm_complete(pos_i, 1 + kk, k, 0, handler_i, acc)
+
+
+def confirm_k345(pos_i, handler_i, kk, acc, k):
+    return confirm_complete(pos_i, 3 + kk, k, 0, handler_i, acc)
 
 
 def ob_complete(pos_i: int, kind: int, k: int, msg_i: int, handler_i: int, real_ei: bool) -> bool:
     pos_i, kind, k, msg_i, handler_i = R(pos_i), R(kind), R(k), R(msg_i), R(handler_i)
-    out, exc, healthy = run_plan(pos_i, kind, k, msg_i, handler_i, real_ei)
+    return _complete(pos_i, kind, k, msg_i, handler_i, real_ei, None)
+
+
+def _complete(pos_i, kind, k, msg_i, handler_i, real_ei, acc):
+    out, exc, healthy = run_plan(pos_i, kind, k, msg_i, handler_i, real_ei, acc)
     if not healthy:
         return False
     want = expected(pos_i, kind, k, handler_i)
@@ -234,7 +288,7 @@ def ob_complete(pos_i: int, kind: int, k: int, msg_i: int, handler_i: int, real_
     body = out.get_data(True)
     if handler_i == 3:
         return ('%s' % want[1]) in body          # default rendering of the same error
-    return len(body) > 0
+    return len(body) > 0 and ('%s' % want[1]) in body
 
 
 def tw_complete(pos_i: int, kind: int, k: int, msg_i: int, handler_i: int, real_ei: bool) -> bool:
@@ -243,16 +297,17 @@ def tw_complete(pos_i: int, kind: int, k: int, msg_i: int, handler_i: int, real_
     return healthy and exc is None and isinstance(out, InternalServerError) and kind == 3
 
 
-def confirm_complete(pos_i, kind, k, msg_i, handler_i, real_ei=True):
-    """public API: the same plan through the WSGI callable of a freshly built application."""
+def confirm_complete(pos_i, kind, k, msg_i, handler_i, acc=0):
+    """public API: the same plan through the WSGI callable of a freshly built application, then the probes."""
     app = _mk_app(handler_i)
     pos = POSITIONS[pos_i]
     PLAN.update(pos=pos, kind=kind, k=k, msg=MSGS[msg_i], obj=None)
     cl = app.get_local_client()
     path = '/nr' if pos == 'endpoint_norender' else '/x'
     want = expected(pos_i, kind, k, handler_i)
+    hdrs = {'Accept': ACCEPTS[acc or 0]}
     try:
-        resp = cl.get(path)
+        resp = cl.get(path, headers=hdrs)
     except Exception as e:
         PLAN['pos'] = None
         return not (want[0] == 'reraise' and type(e) is want[1])
@@ -263,4 +318,9 @@ def confirm_complete(pos_i, kind, k, msg_i, handler_i, real_ei=True):
     code = 418 if (handler_i == 4 and want[0] in ('error', 'status')) else want[1]
     if resp.status_code != code:
         return True
-    return cl.get(path).status_code != 200
+    if cl.get(path).status_code != 200:
+        return True
+    if handler_i != 4:
+        if cl.get('/no/such/route').status_code != 404 or cl.post('/getonly').status_code != 405:
+            return True
+    return False
